@@ -90,6 +90,10 @@ class ExternalLoop:
                         self.readers = [(s2, c2) for s2, c2 in self.readers if s2 is not s]
 
 
+class Runaway(BaseException):
+    """the application keeps opening connections long after the scripted network has nothing more to offer"""
+
+
 def run_app(sc):
     import websocket
     from websocket import _http
@@ -109,6 +113,9 @@ def run_app(sc):
         def socket(self_, *a, **k):
             spec = pending.pop(0) if pending else {"refuse": True}
             attempts_at.append(w.now)
+            if len(attempts_at) > len(sc["attempts"]) + 25:
+                result["runaway"] = True
+                raise Runaway(f"{len(attempts_at)} connection attempts for a script of {len(sc['attempts'])}")
             s = VSock(w, [(e[0], e[1]) + ((bytes.fromhex(e[2]),) if len(e) > 2 else ()) for e in spec.get("events", [])],
                       status=spec.get("status"), tls_pending=bool(spec.get("tls")), pong_latency=spec.get("pong_latency"))
             s.spec = spec
@@ -120,6 +127,8 @@ def run_app(sc):
             s.connect = connect
             socks.append(s)
             return s
+
+    raised_by_callbacks, kept = set(), []
 
     def make_cb(name, nargs):
         mode = sc["callbacks"].get(name)
@@ -135,7 +144,7 @@ def run_app(sc):
                     canon.append("s:" + a.encode("utf-8", "surrogatepass").hex())
                 elif isinstance(a, BaseException):
                     from corr.common import exn_class
-                    canon.append("exc:" + exn_class(a))
+                    canon.append("exc:Other:RuntimeError" if id(a) in raised_by_callbacks else "exc:" + exn_class(a))
                 elif hasattr(a, "opcode") and hasattr(a, "data"):
                     canon.append(f"frame:{a.opcode}")
                 else:
@@ -145,6 +154,12 @@ def run_app(sc):
                 return
             if mode == "raise":
                 raise RuntimeError("callback " + name)
+            if mode == "raise-closed":
+                # e.g. the callback relays to another websocket that is already closed: still just an exception of a user callback
+                exc = websocket.WebSocketConnectionClosedException("relay target is closed")
+                raised_by_callbacks.add(id(exc))
+                kept.append(exc)
+                raise exc
             if mode == "close":
                 app.close()
             if mode == "kbd":
